@@ -1,4 +1,5 @@
 import Dbg.Lemmas.FilterProofs
+import Dbg.Lemmas.FilterSym
 /-! # C05 — K-mer counting/filtering equals reference grouping for any pass count
 
 Proved so far: the pass planning tiles the 256 buckets — for every memory budget (every number of slices ≥ 1)
@@ -59,6 +60,29 @@ theorem C05_keys_ascending (K : Nat) (reads : List (Seq × Exts × Nat)) (st : B
   have e : refAllKmers K reads st = distinctKeys (observations K reads st) := by
     simp [refAllKmers, refGroups, List.map_map, Function.comp_def]
   rw [e]; exact h
+
+/-- **C05 (extensions are the observed flanks).** With empty boundary extensions, an entry of the table records
+    base `b` on side `d` exactly when its k-mer occurs in some read (as spelled or, unstranded, as the reverse
+    complement of what is spelled) with `b` next to it on that side (`Occ`); palindromic k-mers excepted
+    (their two strands coincide, so both orientations of every occurrence are recorded). -/
+theorem C05_exts_are_flanks (K : Nat) (hK : 1 ≤ K) (reads : List (Seq × Exts × Nat)) (hb : NoBoundary reads) (sm : Summarizer) (st : Bool)
+    (e : Entry Payload) (he : e ∈ refTable K reads sm st) (hp : (!st && Compress.isPalindrome e.key) = false)
+    (d : Walk.Dir) (b : Compress.Base) : has e.exts d b ↔ Occ K reads st e.key d b := by
+  constructor
+  · exact table_occ K hK reads hb sm st e he d b
+  · intro h
+    obtain ⟨x, hx⟩ := mem_getElem? _ e he
+    have wf := refTable_wf K hK reads hb sm st
+    have hc := Compress.canonSt_self (st := st) (x := e.key) (fun hst => wf.canon hst x e hx) hp
+    have := occ_table K hK reads hb sm st e.key d b h e he false hc hp
+    simpa [Compress.condFlip] using this
+
+/-- **C05 (the table is well-formed and reciprocal).** What `filter_kmers` delivers from reads with empty boundary
+    extensions — also after `remove_censored_exts` and in any order (the hash map's) — satisfies the hypotheses of the
+    graph-construction theorems (C01, C02, C09): keys of length K, distinct, canonical; extensions reciprocal. -/
+theorem C05_table_wf (K : Nat) (hK : 1 ≤ K) (reads : List (Seq × Exts × Nat)) (hb : NoBoundary reads) (sm : Summarizer) (st : Bool)
+    (T : List (Entry Payload)) (hp : T.Perm (removeCensoredExts st (refTable K reads sm st))) :
+    Compress.WF T K st ∧ Compress.ExtSym T st := pipeline_table_ok K hK reads hb sm st T hp
 
 /-- the hypotheses are those of every real call: K ≥ 4 (Kmer4 is the smallest type `bucket` can read), memory_size ≥ 1 -/
 example : (4 : Nat) ≤ 5 ∧ (1 : Nat) ≤ 1 := by decide
